@@ -156,7 +156,7 @@ def _igmap_case(rng):
 
 def gen_cases(rng, tier):
     cases = []
-    nm, ng, ni = (40, 230, 6) if tier == "quick" else (500, 4200, 40)
+    nm, ng, ni = (30, 170, 6) if tier == "quick" else (400, 3000, 40)
     # fixed corner cases first
     cases.append({"kind": "mapfn", "fn": "haldane", "d": [fx(v) for v in (0.0, 5e-324, 0.1, 0.5, 1.0, 19.0, 1000.0, math.inf)],
                   "r": [fx(v) for v in (0.0, 0.25, 0.5 - 2.0 ** -53, 0.5)]})
@@ -171,7 +171,7 @@ def gen_cases(rng, tier):
     return cases
 
 # ----------------------------------------------------------------------------------------------- implementation driver
-def _mk_map(cls, rows, units, stop=None, name=None, fncode=None):
+def _mk_map(cls, rows, units, stop=None, name=None, fncode=None, auto_group=True):
     from pybrops.popgen.gmap.StandardGeneticMap import StandardGeneticMap
     from pybrops.popgen.gmap.ExtendedGeneticMap import ExtendedGeneticMap
     chrs = numpy.array([r[0] for r in rows], dtype="int64")
@@ -179,12 +179,12 @@ def _mk_map(cls, rows, units, stop=None, name=None, fncode=None):
     gen = numpy.array([xf(r[2]) for r in rows], dtype="float64")
     keep = (chrs.copy(), phy.copy(), gen.copy())
     if cls == "std":
-        g = StandardGeneticMap(chrs, phy, gen, vrnt_genpos_units=units)
+        g = StandardGeneticMap(chrs, phy, gen, vrnt_genpos_units=units, auto_group=auto_group)
     else:
         nm = None if name is None else numpy.array(["m%d" % i for i in name], dtype=object)
         fc = None if fncode is None else numpy.array(["f%d" % i for i in fncode], dtype=object)
         g = ExtendedGeneticMap(chrs, phy, numpy.array(stop, dtype="int64"), gen, vrnt_name=nm, vrnt_fncode=fc,
-                               vrnt_genpos_units=units)
+                               vrnt_genpos_units=units, auto_group=auto_group)
     unchanged = bool(numpy.array_equal(chrs, keep[0]) and numpy.array_equal(phy, keep[1]) and numpy.array_equal(gen, keep[2]))
     return g, unchanged
 
@@ -242,6 +242,11 @@ def _run_gmap(case):
         out["warned"] = any(issubclass(x.category, RuntimeWarning) and "congruent" in str(x.message) for x in w)
     with warnings.catch_warnings():
         warnings.simplefilter("ignore")
+        # the same rows with auto_group=False: arrays stay as supplied, the spline is built from unsorted arrays
+        g3, _ = _mk_map(cls, rows, case["units"], case.get("stop"), case.get("name"), case.get("fncode"), auto_group=False)
+        out["ng_before"] = _dump(g3, cls)
+        out["ng_q_gen"] = fxl(g3.interp_genpos(qc, qp))
+        out["ng_after"] = _dump(g3, cls)
         if cls == "std": m = g.interp_gmap(qc, qp)
         else: m = g.interp_gmap(qc, qp, qp + 1, vrnt_name=numpy.array(["m%d" % i for i in range(len(qc))], dtype=object))
         out["igmap"] = _dump(m, cls)
@@ -255,6 +260,10 @@ def _run_gmap(case):
         out["sq_gen"] = fxl(g.interp_genpos(sc, sp))
         out["p1"] = fxl(g.gdist1p(sc, sp)); out["p2"] = fxll(g.gdist2p(qc, qp))
         out["p1s"] = fxl(g.gdist1p(sc, sp, q1[0], q1[1])); out["p2s"] = fxll(g.gdist2p(qc, qp, *q2))
+        with numpy.errstate(all="ignore"):
+            fo = _fnobj(case["fn"])
+            out["rp"] = {"r1g": fxl(fo.rprob1g(g, ch, ge)), "r2g": fxll(fo.rprob2g(g, ch, ge)),
+                         "r1p": fxl(fo.rprob1p(g, sc, sp)), "r2p": fxll(fo.rprob2p(g, qc, qp))}
         # genotype matrix on the query variants
         nv = len(qc)
         if case["gmat"] == "phased":
@@ -354,6 +363,17 @@ def emit_case(case, out):
         parts.append("check_interp %s %s raw2 q qg qgf own_f" % (exact, cm))
     else:
         parts.append("check_interp %s %s raw2 q %s %s own_f" % (exact, cm, E.lst(out["q_gen2"], _ext), E.lst(out["q_gen2"], _fl)))
+    nb = out["ng_before"]
+    if case["cls"] == "ext":
+        nbpay = [[nb["stop"][i], nb["name"][i] if nb["name"] is not None else -1, nb["fncode"][i] if nb["fncode"] is not None else -1] for i in range(len(nb["chr"]))]
+    else:
+        nbpay = [[] for _ in nb["chr"]]
+    parts.append("check_nogroup %s %s raw q (%s, %s, %s, %s) %s %s %s" % (exact, cm, E.lst(nb["chr"], E.z), E.lst(nb["phy"], E.z), E.lst(nb["gen"], _ext),
+                 E.lst2(nbpay, E.z), E.b(nb["grouped"]), "qg" if out["ng_q_gen"] == out["q_gen"] else E.lst(out["ng_q_gen"], _ext),
+                 "qgf" if out["ng_q_gen"] == out["q_gen"] else E.lst(out["ng_q_gen"], _fl)))
+    if out["ng_after"] != out["map"]:
+        t3, f3 = _dump_term(out["ng_after"], case)
+        parts.append("check_build %s raw %s %s" % (cm, t3, f3))
     ig = out["igmap"]
     igmeta = "(%s, %s, %s, %s)" % tuple(E.lst(m if m is not None else [], E.z) for m in ig["meta"])
     if case["cls"] == "ext":
@@ -380,6 +400,11 @@ def emit_case(case, out):
                  "sq" if [list(t) for t in zip(gm["chr"], gm["phy"])] == out["sq"] else _pairs(list(zip(gm["chr"], gm["phy"]))),
                  E.lst(gm["genpos"], _ext), E.lst(gm["xoprob"], _ext),
                  "gmf" if out["gm_genpos_only"] == gm["genpos"] else E.lst(out["gm_genpos_only"], _fl), E.b(out["ungrouped_raises"])))
+    rp = out["rp"]
+    flat = lambda m: [v for r in m for v in r]
+    dd = (out["g1"] + flat(out["g2"])[:8] + out["p1"] + flat(out["p2"])[:8])
+    pp = (rp["r1g"] + flat(rp["r2g"])[:8] + rp["r1p"] + flat(rp["r2p"])[:8])
+    parts.append("check_rprob %s %s %s" % (_kind(case["fn"]), E.lst(dd, _ext), E.lst(pp, _ext)))
     parts.append(E.b(out["inputs_unchanged"]))
     head = "".join("let %s : %s := %s in\n   " % b for b in binds)
     return "(" + head + "\n   && ".join(parts) + ")"
@@ -471,6 +496,11 @@ def _pred_gmap(case, out):
     if out["map2"] != out["map"]: bad.append("map depends on the order in which the rows were supplied")
     if out["q_gen2"] != out["q_gen"]: bad.append("interpolation depends on the order in which the rows were supplied")
     if not out["inputs_unchanged"]: bad.append("constructor mutated its input arrays")
+    nb = out["ng_before"]
+    if list(zip(nb["chr"], nb["phy"], [xf(v) for v in nb["gen"]])) != [t[:3] for t in rows] or nb["grouped"]:
+        bad.append("auto_group=False: the constructor reordered or grouped the arrays")
+    if out["ng_q_gen"] != out["q_gen"]: bad.append("interpolation from a map built with auto_group=False differs from the sorted map (spline depends on array order)")
+    if out["ng_after"] != out["map"]: bad.append("auto_group=False: after the congruence test inside interp_genpos the map is not the sorted, grouped map")
     # congruence
     cg = [True if i == 0 or srt[i - 1][0] != srt[i][0] else srt[i - 1][2] <= srt[i][2] for i in range(n)]
     if out["congruence"] != cg: bad.append("congruence() flags")
@@ -565,6 +595,16 @@ def _pred_gmap(case, out):
         else:
             want = _mapfn_py(case["fn"], gp[i] - gp[i - 1])
             if not _close(xo[i], want, 2.0 ** -44): bad.append("vrnt_xoprob[%d] = %r != %s(gap %r) = %r" % (i, xo[i], case["fn"], gp[i] - gp[i - 1], want))
+    # recombination probabilities = map function of the corresponding distances
+    rp = out["rp"]
+    flat = lambda m: [v for r in m for v in r]
+    for name, dist, prob in (("rprob1g", out["g1"], rp["r1g"]), ("rprob2g", flat(out["g2"]), flat(rp["r2g"])),
+                             ("rprob1p", out["p1"], rp["r1p"]), ("rprob2p", flat(out["p2"]), flat(rp["r2p"]))):
+        if len(dist) != len(prob): bad.append("%s: shape differs from the distance array" % name); continue
+        for dv, pv in zip(dist, prob):
+            dv, pv = xf(dv), xf(pv)
+            want = 0.5 if dv == math.inf else _mapfn_py(case["fn"], dv)
+            if not _close(pv, want, 2.0 ** -44): bad.append("%s: %r for distance %r, %s gives %r" % (name, pv, dv, case["fn"], want)); break
     return bad
 
 def _pred_igmap(case, out):
